@@ -446,6 +446,27 @@ fn corruptions(t: &mut Trace, l: &Lib, rng: &mut Rng, alg: Alg, sorted: bool, ro
         p.insert(k / 2, p[k / 2]);
         run(t, &it.leaf, &p, it.index, root, "c:ext");
     }
+    // special values (all-zero "padding", all-ones) appended, prepended, inserted and substituted:
+    // a verifier that treats some value as "no sibling" accepts these
+    for sv in [[0u8; 32], [0xffu8; 32]] {
+        let mut p = it.proof.clone();
+        p.push(sv);
+        run(t, &it.leaf, &p, it.index, root, "c:ext");
+        let mut p = it.proof.clone();
+        p.insert(0, sv);
+        run(t, &it.leaf, &p, it.index << 1, root, "c:ext");
+        if k > 0 {
+            let mut p = it.proof.clone();
+            p.insert((k + 1) / 2, sv);
+            run(t, &it.leaf, &p, it.index, root, "c:ext");
+            let i = rng.below(k as u64) as usize;
+            if it.proof[i] != sv {
+                let mut p = it.proof.clone();
+                p[i] = sv;
+                run(t, &it.leaf, &p, it.index, root, "c:proof");
+            }
+        }
+    }
     // reordered: every adjacent transposition of different elements, and the reversal
     for i in 0..k.saturating_sub(1) {
         if it.proof[i] != it.proof[i + 1] {
@@ -516,7 +537,17 @@ fn tree_cases(t: &mut Trace, rng: &mut Rng, thorough: bool) {
                         // verifier refuses such proofs; covered separately below
                         continue;
                     }
-                    let leaves: Vec<H32> = (0..n).map(|_| rand32(rng)).collect();
+                    let mut leaves: Vec<H32> = (0..n).map(|_| rand32(rng)).collect();
+                    // some trees carry the all-zero / all-ones value as a genuine leaf, so that it
+                    // occurs as a genuine sibling in honest proofs
+                    if n >= 2 && n % 5 == 2 {
+                        let j = rng.below(n as u64) as usize;
+                        leaves[j] = [0u8; 32];
+                        let j2 = rng.below(n as u64) as usize;
+                        if j2 != j {
+                            leaves[j2] = [0xffu8; 32];
+                        }
+                    }
                     let tr = build(alg, sorted, &leaves, shape, rng);
                     let root = tr.root();
                     let its = items(&tr);
